@@ -695,7 +695,9 @@ let run (lineno : int) (lbc : str -> n list) ofit (args : string array) (impl : 
              let no_overflow = List.for_all (fun l -> n_le (dwm l) o.o_width) (split_le o.o_le r1) in
              let applies = builtin && noind && sep_ok && (match o.o_alg with FirstFit -> true | OptimalFit _ -> no_overflow) in
              if not applies then say "C14" "skip" "outside the stated option combinations"
-             else if a = b then say "C14" "ok" "" else say "C14" "FAIL" "fill is not idempotent"
+             else if a = b then say "C14" "ok" ""
+             else if not (List.for_all (additive lbc o) (split_le o.o_le t)) then say "C14" "known" "CutInsideEscape"
+             else say "C14" "FAIL" "fill is not idempotent"
          | _ -> ())
     | "unfill" ->
         (* structural half of C15 *)
